@@ -6,6 +6,7 @@ package main
 // spurious one — with the stated exception that terms are memory-less.
 
 import (
+	"go/constant"
 	"go/token"
 	"go/types"
 	"sort"
@@ -887,47 +888,89 @@ func unspill(ret *ssa.Return, idx int) ssa.Value {
 func (fx *Facts) pathFactsTo(b *ssa.BasicBlock, depth int) []FactSet {
 	in := fx.blockFacts(b.Parent(), 0)[b]
 	budget := 24
-	var rec func(b *ssa.BasicBlock, depth, steps int) []FactSet
-	rec = func(b *ssa.BasicBlock, depth, steps int) []FactSet {
+	// a path also remembers, for every φ of a merge block it came through, which operand the φ had on that path: a
+	// later branch on that φ (a condition folded into a named boolean by && / ||) is then decided by the operand
+	type pathSet struct {
+		fs   FactSet
+		bind map[*ssa.Phi]ssa.Value
+	}
+	var rec func(b *ssa.BasicBlock, depth, steps int) []pathSet
+	rec = func(b *ssa.BasicBlock, depth, steps int) []pathSet {
 		cur := fx.blockFacts(b.Parent(), 0)[b]
 		if len(b.Preds) == 0 || steps > 12 || loopHeaderOf(b) == b || (len(b.Preds) > 1 && depth <= 0) {
-			return []FactSet{cur}
+			return []pathSet{{cur, nil}}
 		}
 		nd := depth
 		if len(b.Preds) > 1 {
 			nd--
 		}
-		var out []FactSet
-		for _, p := range b.Preds {
+		var out []pathSet
+		for pi, p := range b.Preds {
 			if b.Dominates(p) {
-				return []FactSet{cur} // back edge
+				return []pathSet{{cur, nil}} // back edge
 			}
-			for _, pf := range rec(p, nd, steps+1) {
-				if pf.Bottom {
+			for _, pp := range rec(p, nd, steps+1) {
+				if pp.fs.Bottom {
 					continue
 				}
-				s := pf.clone()
+				s := pp.fs.clone()
+				bind := map[*ssa.Phi]ssa.Value{}
+				for k, v := range pp.bind {
+					bind[k] = v
+				}
+				if len(b.Preds) > 1 {
+					for _, in := range b.Instrs {
+						phi, isPhi := in.(*ssa.Phi)
+						if !isPhi {
+							break
+						}
+						if pi < len(phi.Edges) {
+							bind[phi] = phi.Edges[pi]
+						}
+					}
+				}
+				infeasible := false
 				if iff, ok := p.Instrs[len(p.Instrs)-1].(*ssa.If); ok && p.Succs[0] != p.Succs[1] {
 					w := WantFalse
 					if p.Succs[0] == b {
 						w = WantTrue
 					}
-					s.addAll(fx.valueFacts(iff.Cond, w, 0, map[ssa.Value]bool{}))
+					cond := iff.Cond
+					for {
+						if u, isNot := cond.(*ssa.UnOp); isNot && u.Op == token.NOT {
+							cond, w = u.X, w.neg()
+							continue
+						}
+						break
+					}
+					if phi, isPhi := cond.(*ssa.Phi); isPhi && pp.bind[phi] != nil {
+						cond = pp.bind[phi]
+					}
+					if k, isC := cond.(*ssa.Const); isC && k.Value != nil && k.Value.Kind() == constant.Bool {
+						if constant.BoolVal(k.Value) != (w == WantTrue) {
+							infeasible = true
+						}
+					} else {
+						s.addAll(fx.valueFacts(cond, w, 0, map[ssa.Value]bool{}))
+					}
 				}
-				if !s.Bottom {
-					out = append(out, s)
+				if !s.Bottom && !infeasible {
+					out = append(out, pathSet{s, bind})
 				}
 			}
 			if len(out) > budget {
-				return []FactSet{cur}
+				return []pathSet{{cur, nil}}
 			}
 		}
 		if len(out) == 0 {
-			return []FactSet{cur}
+			return []pathSet{{cur, nil}}
 		}
 		return out
 	}
-	out := rec(b, depth, 0)
+	var out []FactSet
+	for _, ps := range rec(b, depth, 0) {
+		out = append(out, ps.fs)
+	}
 	if len(out) > budget {
 		return []FactSet{in}
 	}
